@@ -1130,7 +1130,8 @@ class Dynamo0p3ColourTrans(ColourTrans):
             raise TransformationError("Cannot have a loop over colours "
                                       "within an OpenMP parallel region.")
         # The same holds for an OpenACC parallel or kernels region.
-        if node.ancestor((ACCParallelDirective, ACCKernelsDirective)):
+        if node.ancestor((ACCParallelDirective, ACCKernelsDirective,
+                          ACCLoopDirective)):
             raise TransformationError("Cannot have a loop over colours "
                                       "within an OpenACC parallel region.")
 
